@@ -202,6 +202,11 @@ func c11h2Gen() (string, error) {
 	}
 	s += "/-- the code of the GOAWAY that GracefulShutdown() sends -/\n"
 	s += fmt.Sprintf("def gracefulCode : Int := %d\n", cv)
+	ext, err := c11gwHandlers(f)
+	if err != nil {
+		return "", err
+	}
+	s += ext
 	s += footer("H2GoAway")
 	return s, nil
 }
